@@ -236,8 +236,49 @@ def replay_prune(r):
     return worst is not None, worst or {'function': 'LatticeColumn.prune', 'note': 'no failing layer among 400 generated layers around the counter-model parameters'}
 
 
+def replay_upsert(r):
+    """run-time form of the upsert contract on a real LatticeColumn: a key that is present, between two other entries; all
+    combinations of stop flags and score order (the model only selects the case: the column content is what matters)"""
+    from leuvenmapmatching.matcher.base import BaseMatching, LatticeColumn
+    from leuvenmapmatching.matcher.distance import DistanceMatching
+    from leuvenmapmatching.util.segment import Segment
+    cls = DistanceMatching if 'DistanceMatching' in r.ob.name else BaseMatching
+    mo = re.search(r'obs_ne=(\d)', r.ob.name)
+    ne = int(mo.group(1)) if mo else 0
+    clause = re.search(r'::(.*)\[p\d+\]$', r.ob.name)
+    clause = clause.group(1) if clause else ''
+
+    def mk(l1, l2, lp, stop):
+        return cls(None, Segment(l1, (0.0, 0.0), l2, (1.0, 0.0), (0.5, 0.0), 0.5), Segment('o', (0.5, 0.1)), logprob=lp, logprobema=lp, logprobe=lp,
+                   logprobne=0.0, dist_obs=0.1, obs=1, obs_ne=ne, stop=stop, length=2, delayed=0)
+    bad = []
+    for old_stop in (False, True):
+        for new_stop in (False, True):
+            for old_lp, new_lp in ((-2.0, -1.0), (-1.0, -2.0), (-1.0, -1.0)):
+                col = LatticeColumn(0)
+                a, old, c = mk('a', 'b', -1.0, False), mk('b', 'c', old_lp, old_stop), mk('c', 'd', -1.0, False)
+                for m in (a, old, c):
+                    col.upsert(m)
+                cand = mk('b', 'c', new_lp, new_stop)
+                res = col.upsert(cand)
+                better = (old_stop and not new_stop) or (old_stop == new_stop and old_lp < new_lp)
+                order = [m.key[:2] for m in col.o[ne].values()]
+                want = [('a', 'b'), ('c', 'd'), ('b', 'c')] if (old_stop and not old.stop) else [('a', 'b'), ('b', 'c'), ('c', 'd')]
+                case = f"stored(stop={old_stop}, logprob={old_lp}) candidate(stop={new_stop}, logprob={new_lp})"
+                if res is not old or col.o[ne].get(old.key) is not old:
+                    bad.append(f"{case}: the stored object was replaced")
+                if old.logprob != (new_lp if better else old_lp) or old.stop != (new_stop if better else old_stop):
+                    bad.append(f"{case}: content is not the better of the two (logprob {old.logprob}, stop {old.stop})")
+                if order != want:
+                    bad.append(f"{case}: layer order {order}, expected {want}")
+    sel = [b for b in bad if ('order' in b) == ('ordered' in clause)] or bad
+    return bool(sel), {'function': 'LatticeColumn.upsert', 'class': cls.__name__, 'layer': ne, 'clause': clause, 'failed': sel[:6]}
+
+
 def replayer(r):
     n = r.ob.name
+    if n.startswith('LatticeColumn.upsert'):
+        return replay_upsert(r)
     if n.startswith('BaseMatching.update'):
         return replay_update(r)
     if n.startswith('BaseMatcher.do_stop'):
